@@ -30,7 +30,11 @@ RULE = ('a case = a generated module class (1-4 parameters over int/bool/enum/st
         'sequence is compared with the one of the model; after a crash the module is re-created from the surviving '
         'directory.  Exhaustive part: for fixed modules every fault kind at every call index of a save (live module and '
         'start-up, 4 indices beyond the calls made today); corruptions: truncation at every byte, single bit flips, '
-        'per-entry type changes, unknown keys, non-object documents, outdated shapes.  A case is non-trivial when at '
+        'per-entry type changes, unknown keys, non-object documents, outdated shapes.  String values (utf-8 and plain '
+        'StringType, also inside struct/array/tuple; assigned, configured, in stored documents) cover every class of '
+        'code points: control characters, JSON-escaped characters, BMP non-ASCII, non-BMP, lone high and low surrogates '
+        '(json.loads of an escaped half pair, surrogateescape) - each followed by assignments of other parameters, '
+        'saves and restarts.  A case is non-trivial when at '
         'least one file write-out was attempted or a stored/corrupted file was loaded; distinct = distinct (module, '
         'history) pairs')
 ASSUMPTIONS = [
@@ -49,6 +53,12 @@ ASSUMPTIONS = [
     'json.dump/json.load, float(int), float*int, round(x/scale), base64 are CPython: their results enter the model as data '
     '(chunk count of a dump, integral floats as FInt, scaled and base64 tables) and are exercised by the correspondence',
     'durability without fsync and real power loss are file-system semantics and not covered',
+    'the file objects of the in-memory file system have the text layer of the real open(): write(str) encodes at once '
+    'with the encoding and error handler given to open (strict by default: a lone surrogate raises UnicodeEncodeError out '
+    'of write, before any file-system call); model side: the text of a document is ASCII (facts dump_text_is_ascii, '
+    'tmp_file_is_utf8_text), so no write fails for encoding reasons',
+    'string values never hold a high surrogate directly followed by a low surrogate (two code points that the JSON '
+    'escape of CPython does not distinguish from the one non-BMP character they would encode in UTF-16)',
 ]
 
 WORKDIR = os.path.join(os.path.dirname(os.path.dirname(os.path.dirname(os.path.abspath(__file__)))), '.work', 'C17-fs')
@@ -382,7 +392,7 @@ class FakeFS:
                         for k in [k for k in old if k != 'raw']:
                             del old[k]
                         old['raw'] = b''
-                    return ConcWriter(self, old, p)
+                    return ConcWriter(self, old, p, TextLayer(mode, encoding, errors, newline))
                 if ('a' in mode or ('+' in mode and 'r' in mode)) and old is not None:
                     if 'raw' in old:
                         old = {'chunks': [old['raw'].decode('utf-8', 'surrogateescape')], 'data': None, 'n': 0}
@@ -392,7 +402,7 @@ class FakeFS:
                 else:
                     f = {'chunks': [], 'data': None, 'n': 0, 'closed': False}
                 self.files[p] = f
-                return Writer(self, f, p)
+                return Writer(self, f, p, TextLayer(mode, encoding, errors, newline))
             return self.call('open_w', self.role(p), effect)
 
         def reffect():
@@ -512,15 +522,57 @@ class FakeFS:
         return self.call('touch', self.role(p), effect)
 
 
+class TextLayer:
+    """the text layer of a file object as the real `open(path, mode, encoding=..., errors=..., newline=...)` builds it
+    (io.TextIOWrapper): str.write(s) ENCODES s at once with the codec and the error handler given to open - the
+    default handler is 'strict', so a lone surrogate handed to a utf-8 file raises UnicodeEncodeError out of write()
+    before anything of that chunk reaches the file (what was written before stays; close() still works) - and
+    translates '\n' as newline= says.  Binary mode: bytes-like objects only."""
+    def __init__(self, mode='w', encoding=None, errors=None, newline=None):
+        self.binary = 'b' in mode
+        if self.binary:
+            if encoding is not None or errors is not None or newline is not None:
+                raise ValueError("binary mode doesn't take an encoding/errors/newline argument")
+            self.encoding = self.errors = None
+            return
+        if encoding is None or encoding == 'locale':
+            import locale
+            encoding = locale.getpreferredencoding(False)
+        import codecs
+        codecs.lookup(encoding)                       # LookupError like the real open
+        if errors is not None:
+            codecs.lookup_error(errors)
+        if newline not in (None, '', '\n', '\r', '\r\n'):
+            raise ValueError(f'illegal newline value: {newline!r}')
+        self.encoding, self.errors = encoding, errors or 'strict'
+        self.nl = os.linesep if newline is None else (newline or '\n')
+        # the incremental encoder io.TextIOWrapper uses (stateful codecs write their BOM once)
+        self.enc = codecs.getincrementalencoder(encoding)(self.errors)
+
+    def encode(self, s):
+        """bytes that reach the file for write(s); raises what the real file object raises"""
+        if self.binary:
+            if isinstance(s, str):
+                raise TypeError("a bytes-like object is required, not 'str'")
+            return bytes(s)
+        if not isinstance(s, str):
+            raise TypeError(f'write() argument must be str, not {type(s).__name__}')
+        if self.nl != '\n':
+            s = s.replace('\n', self.nl)
+        return self.enc.encode(s)
+
+
 class Writer:
     """file object of a file opened for writing: write, flush and close are file-system calls"""
-    def __init__(self, fs, f, path):
+    def __init__(self, fs, f, path, layer=None):
         self.fs, self.f, self.path, self.count = fs, f, path, 0
         self.fd = FAKE_FD + len(fs.handles)
         fs.handles[self.fd] = self
         self.name = path
-        self.mode = 'w'
-        self.encoding = 'utf-8'
+        self.layer = layer or TextLayer('w', 'utf-8')
+        self.mode = 'wb' if self.layer.binary else 'w'
+        self.encoding = self.layer.encoding
+        self.errors = self.layer.errors
 
     @property
     def closed(self):
@@ -530,7 +582,9 @@ class Writer:
         if self.f['closed']:
             raise ValueError('I/O operation on closed file.')
         i = self.count
-        text = s if isinstance(s, str) else bytes(s).decode('utf-8', 'surrogateescape')
+        # the text layer encodes first (UnicodeEncodeError / TypeError come out of write() before any file-system call)
+        b = self.layer.encode(s)
+        text = b.decode('utf-8', 'surrogateescape')     # chunks are kept as text; file_bytes() inverts this exactly
 
         def effect():
             self.f['chunks'].append(text)
@@ -580,16 +634,18 @@ class Writer:
 class ConcWriter:
     """file object of a concurrent case: writes go to the inode at the offset of THIS file object (holes are
     filled with NUL bytes), wherever the inode is linked now"""
-    def __init__(self, fs, inode, path):
+    def __init__(self, fs, inode, path, layer=None):
         self.fs, self.f, self.path, self.count, self.pos, self.closed = fs, inode, path, 0, 0, False
         self.name = path
-        self.mode = 'w'
-        self.encoding = 'utf-8'
+        self.layer = layer or TextLayer('w', 'utf-8')
+        self.mode = 'wb' if self.layer.binary else 'w'
+        self.encoding = self.layer.encoding
+        self.errors = self.layer.errors
 
     def write(self, s):
         if self.closed:
             raise ValueError('I/O operation on closed file.')
-        b = s.encode('utf-8', 'surrogateescape') if isinstance(s, str) else bytes(s)
+        b = self.layer.encode(s)        # strict text layer: see TextLayer
 
         def effect():
             raw = self.f['raw']
@@ -1758,8 +1814,11 @@ def oracle(case, obs):
     foreign = False        # somebody else replaced the stored file and the module has not read or rewritten it since
     cur_saved_vals = None  # values of the live module when the stored file was last completely written by it
     failed_save = None     # index of a save that failed with an I/O error and was not followed by a complete write
+    synced = None          # (index, values): the operation before was a save attempt without fault of a live module:
+    #                        these values are what a restart has to restore
     for idx, (op, st) in enumerate(zip(case['ops'], obs['steps'])):
         kind = op[0]
+        synced_before, synced = synced, None
         after = None if st['raw'] is None else bytes(st['raw'])
         before = cur
         cur = after
@@ -1804,7 +1863,8 @@ def oracle(case, obs):
             failed_save = None
         # (2) a save without fault puts the current values on disk (a failed one is retried by the next save)
         attempt = False
-        if st['mod'] is not None and not st['fired'] and st['exc'] is None:
+        # (an explicit saveParameters() that raises without an injected fault has not saved: it is an attempt too)
+        if st['mod'] is not None and not st['fired'] and (st['exc'] is None or kind == 'save'):
             if kind == 'init':
                 attempt = True
             elif kind == 'save' and prev_mod is not None and not prev_mod['wd']:
@@ -1821,8 +1881,13 @@ def oracle(case, obs):
                     fail('failed-save-not-retried',
                          f'op {idx} ({kind}): the save of op {failed_save} failed with an I/O error; this save did not '
                          f'write either: disk has {doc}, values are {exp}', failed_at=failed_save)
+                elif st['exc'] is not None:
+                    fail('save-raised', f'op {idx}: saveParameters() without any file-system fault raised {st["exc"]} and '
+                                        f'did not save: disk has {doc}, values are {exp}', exc=st['exc'])
                 else:
                     fail('save-lost', f'op {idx} ({kind}): after a successful save the disk has {doc}, values are {exp}')
+            if exp is not None:
+                synced = (idx, dict(st['mod']['vals']))
         if st['fired'] and fault and fault['kind'] == 'err' and st['mod'] is not None and not wrote and \
                 not st['fired_at'][1].startswith(('open_r', 'makedirs')):
             failed_save = idx
@@ -1873,6 +1938,12 @@ def oracle(case, obs):
                 if cur_saved_vals is not None and before is not None and n in cur_saved_vals and \
                         not cv_eq(got, cur_saved_vals[n]):
                     fail('roundtrip', f'op {idx}: {n} was {cur_saved_vals[n]} when saved, is {got} after loading')
+                # (5) restart: every value the module had accepted when it last saved (the operation before was a
+                #     save without fault: explicit, automatic after an assignment, or that of start-up) is back
+                if synced_before is not None and not st['fired'] and not cv_eq(got, synced_before[1][n]):
+                    fail('restart-lost', f'op {idx}: {n} was {synced_before[1][n]!r} after op {synced_before[0]} '
+                                         f'({case["ops"][synced_before[0]][0]}: a save without fault) and is {got!r} '
+                                         'after the restart')
             if wrote:
                 cur_saved_vals = dict(st['mod']['vals'])
     return fails
@@ -1973,6 +2044,21 @@ def outcome_labels(case, obs):
             labs.add('stale-tmp')
     for p in case['params']:
         labs.add('dt:' + p['dt'][0])
+
+    def str_labels(cv):
+        if isinstance(cv, str):
+            for c in cv:
+                o = ord(c)
+                labs.add('str:' + ('lone-high-surrogate' if 0xd800 <= o <= 0xdbff else
+                                   'lone-low-surrogate' if 0xdc00 <= o <= 0xdfff else
+                                   'non-bmp' if o > 0xffff else 'bmp-non-ascii' if o > 127 else
+                                   'control' if o < 32 or o == 127 else 'json-escaped' if c in '"\\' else 'ascii'))
+    for op in case['ops']:
+        if op[0] == 'set':
+            walk_cv(op[2], str_labels)
+        elif op[0] == 'init':
+            for v in op[1].values():
+                walk_cv(v, str_labels)
     return sorted(labs)
 
 
@@ -1987,6 +2073,43 @@ def sample_repr(case, obs):
 # ------------------------------------------------------------------ generators
 ALPHA = 'abXY z'
 LEAVES = ['int', 'bool', 'enum', 'str', 'float', 'scaled', 'blob']
+# characters a StringType accepts (everything but NUL; plain = ASCII only).  Python strings are sequences of code
+# points, surrogates included: '\ud83d' is what json.loads('"\\ud83d"') returns for a change request of a client,
+# '\udcff' what bytes.decode(..., 'surrogateescape') makes of a raw 0xff byte of a hardware reply.
+ASCII_CTRL = '\x01\t\n\r\x1b\x1f\x7f'            # control characters
+ASCII_JSON = '"\\/'                               # characters JSON escapes or may escape
+BMP = 'é中µ°ß€\x80\x9f\xa0\u2028\u2029\ufeff\ufffd\uffff\ud7ff\ue000'     # non-ASCII, basic plane (C1 controls, separators, BOM)
+NONBMP = '\U00010000\U0001f600\U0001d11e\U0010ffff'                   # outside the basic plane (escaped as a surrogate pair)
+HIGH_SUR = '\ud800\ud83d\udbff'                    # lone high surrogates
+LOW_SUR = '\udc00\udc80\udcff\ude00\udfff'          # lone low surrogates (dc80-dcff: surrogateescape)
+
+
+def _is_high(c):
+    return 0xd800 <= ord(c) <= 0xdbff
+
+
+def _is_low(c):
+    return 0xdc00 <= ord(c) <= 0xdfff
+
+
+def gen_str(dt, rng, special=None):
+    """a valid value of ['str', minc, maxc, utf8].  A high surrogate is never directly followed by a low one: such a
+    two-code-point string is written as the escape of ONE non-BMP character (CPython json; see notes 'paired
+    surrogates') - lone surrogates, low-before-high and surrogates next to other characters are all generated."""
+    n = rng.randint(dt[1], dt[2])
+    if special is None:
+        special = rng.random() < 0.45
+    if not special:
+        alpha = ALPHA + ('é中' if dt[3] else '')
+        return ''.join(rng.choice(alpha) for _ in range(n))
+    pools = [ALPHA, ASCII_CTRL, ASCII_JSON] + ([BMP, NONBMP, HIGH_SUR, LOW_SUR, HIGH_SUR + LOW_SUR] if dt[3] else [])
+    out = []
+    for _ in range(n):
+        c = rng.choice(rng.choice(pools))
+        if out and _is_high(out[-1]) and _is_low(c):
+            c = rng.choice(HIGH_SUR + ALPHA)
+        out.append(c)
+    return ''.join(out)
 ENUM = [['a', 1], ['b', 2], ['c', 5]]
 
 
@@ -2029,8 +2152,7 @@ def gen_value(dt, rng):
     if k == 'enum':
         return rng.choice(dt[1])[1]
     if k == 'str':
-        alpha = ALPHA + ('é中' if dt[3] else '')
-        return ''.join(rng.choice(alpha) for _ in range(rng.randint(dt[1], dt[2])))
+        return gen_str(dt, rng)
     if k == 'float':
         return {'f': rng.choice(FLOATS).hex()}
     if k == 'scaled':
@@ -2314,11 +2436,102 @@ def corruption_sweep(params, rng, flips=True):
             yield {'params': params, 'ops': [['corrupt', {'doc': {'s': doc}}], ['init', {}, None]]}
 
 
+STRING_MODULES = [
+    # label (utf-8, auto) + setpoint (auto): the module of a sample environment with a free text and a number
+    [{'dt': ['str', 0, 6, True], 'pers': 'auto', 'w': 'none', 'default': ''},
+     {'dt': ['float'], 'pers': 'auto', 'w': 'none', 'default': {'f': (0.0).hex()}}],
+    # plain (ASCII) string, auto, + utf-8 string saved on request only + a number
+    [{'dt': ['str', 0, 4, False], 'pers': 'auto', 'w': 'none', 'default': 'a'},
+     {'dt': ['str', 1, 5, True], 'pers': 'on', 'w': 'none', 'default': 'é'},
+     {'dt': ['int', -1000, 1000], 'pers': 'auto', 'w': 'none', 'default': 0}],
+    # strings inside struct / array / tuple
+    [{'dt': ['struct', [['n', ['int', -1000, 1000]], ['text', ['str', 0, 5, True]]], []], 'pers': 'auto', 'w': 'none',
+      'default': {'s': {'n': 0, 'text': ''}}},
+     {'dt': ['array', ['str', 0, 3, True], 0, 3], 'pers': 'auto', 'w': 'none', 'default': []},
+     {'dt': ['tuple', [['str', 0, 3, True], ['str', 0, 3, False], ['bool']]], 'pers': 'auto', 'w': 'none',
+      'default': ['', '', False]}],
+    # with write methods (values go through writeDict / writeInitParams before they are saved)
+    [{'dt': ['str', 0, 6, True], 'pers': 'auto', 'w': 'method', 'default': 'x'},
+     {'dt': ['float'], 'pers': 'auto', 'w': 'flag', 'default': {'f': (1.5).hex()}}],
+]
+
+# one string per class of code points (all valid for a utf-8 string of up to 6 characters; the ASCII ones also for
+# a plain string)
+STRING_VALUES_ASCII = ['ab', 'a\tb', '\x01', '\x7f\x1f', 'a"b\\', '\n', '\r\n', '</']
+STRING_VALUES_UTF8 = ['é', '5 °C', '3 µT', '中', '\x80', '\u2028', '\ufeff', '\uffff', '\U0001f600', 'a\U00010000b',
+                      '\U0010ffff', '\ud83d', '\ude00', '\udcff', 'a\ud83d', '\ud83db', '\udc80z', '\ude00\ud83d',
+                      '\ud83d\ud83d', '\ud800 \udfff', '\U0001f600\ud83d', '\ud83d\U0001f600', 'é\udcffé']
+
+
+def _with_string(dt, sval, rng):
+    """a value of dt in which every string leaf that can hold sval is sval"""
+    k = dt[0]
+    if k == 'str':
+        ok = dt[1] <= len(sval) <= dt[2] and (dt[3] or all(ord(c) < 128 for c in sval))
+        return sval if ok else gen_str(dt, rng, special=False)
+    if k == 'array':
+        return [_with_string(dt[1], sval, rng) for _ in range(max(dt[2], min(dt[3], 2)))]
+    if k == 'tuple':
+        return [_with_string(d, sval, rng) for d in dt[1]]
+    if k == 'struct':
+        return {'s': {n: _with_string(d, sval, rng) for n, d in dt[1]}}
+    return gen_value(dt, rng)
+
+
+def string_cases(seed, tier):
+    """string parameters (utf-8 and plain, also inside struct / array / tuple) assigned values of every class of code
+    points - control characters, JSON-escaped characters, BMP non-ASCII, non-BMP, lone high / low surrogates - then
+    OTHER parameters of the module assigned, explicit saves, and restarts: every value the module accepted has to
+    be there again after the restart, and a save after it has to work"""
+    rng = random.Random(seed * 7919 + 1717)
+    cases = []
+    for params in STRING_MODULES:
+        names = [f'p{i}' for i in range(len(params))]
+        strs = [i for i, p in enumerate(params) if has_kind(p['dt'], 'str')]
+        others = [i for i in range(len(params)) if i not in strs] or strs
+        haswd = any(p['w'] == 'method' for p in params)
+        head = [['init', {}, None]] + ([['writeinit', None]] if haswd else [])
+        for sval in STRING_VALUES_ASCII + STRING_VALUES_UTF8:
+            for i in strs:
+                v = _with_string(params[i]['dt'], sval, rng)
+                if json.dumps(v).find(json.dumps(sval)[1:-1]) < 0:
+                    continue          # the datatype cannot hold this string
+                j = others[0]
+                w = gen_value(params[j]['dt'], rng)
+                # assigned while running, another parameter assigned afterwards, restart, save, restart
+                cases.append({'params': params, 'ops': head + [
+                    ['set', names[i], v, None], ['set', names[j], w, None], ['save', None],
+                    ['init', {}, None], ['save', None], ['init', {}, None]]})
+                # configured value (start-up saves it), restart without configuration
+                cases.append({'params': params, 'ops': [
+                    ['init', {names[i]: v}, None], ['save', None], ['init', {}, None]]})
+        # random histories of special values with faults (a failed save is retried by the next one) and restarts
+        nhist = {'quick': 12, 'thorough': 150, 'search': 150}[tier]
+        for _ in range(nhist):
+            ops = list(head)
+            for _ in range(rng.randint(2, 6)):
+                i = rng.choice(strs if rng.random() < 0.7 else list(range(len(params))))
+                dt = params[i]['dt']
+                v = _with_string(dt, gen_str(['str', 0, 3, True], rng, special=True), rng) if i in strs and \
+                    rng.random() < 0.7 else gen_value(dt, rng)
+                f = gen_fault(rng, 0.25, by_index=True)
+                ops.append(['set', names[i], v, f])
+                if f is not None and f['kind'] != 'err':
+                    ops.append(['init', {}, None])
+                    if haswd:
+                        ops.append(['writeinit', None])
+                elif rng.random() < 0.3:
+                    ops.append(['save', None])
+            ops += [['save', None], ['init', {}, None], ['save', None]]
+            cases.append({'params': params, 'ops': ops})
+    return cases
+
+
 def gen_cases(seed, tier):
     rng = random.Random(seed * 1000003 + 17)
     npool, nrand = {'quick': (60, 1800), 'thorough': (400, 18000), 'search': (400, 18000)}[tier]
     pool = FIXED + [gen_params(rng) for _ in range(npool)]
-    cases = []
+    cases = list(string_cases(seed, tier))
     fixed = FIXED if tier != 'quick' else FIXED[:2]
     for params in fixed:
         cases.extend(fault_sweep(params, rng))
